@@ -29,10 +29,21 @@ type srcOpt struct {
 	Name string
 	Val  string
 	Agg  bool
+	Line int
+}
+
+// srcErr is a construct the extractor does not understand: it is never guessed and never fatal -
+// it becomes an [RUnsupported file line what] row of the source table, which no descriptor row
+// equals, so the per-file static case fails with a replay that names file and line.
+type srcErr struct {
+	Line int
+	Msg  string
 }
 
 type srcField struct {
 	Opts []srcOpt
+	Line int
+	Json string // explicit json_name (a pseudo-option of the field syntax), "" when not written
 	Name string
 	Num  int
 	Type string // scalar keyword or unresolved type reference
@@ -71,19 +82,25 @@ type srcSvc struct {
 	Methods []srcMethod
 }
 type srcFile struct {
-	Name      string
-	Pkg       string
-	GoPackage bool
-	Msgs      []*srcMsg
-	Enums     []*srcEnum
-	Svcs      []*srcSvc
+	Unsupported []srcErr
+	Name        string
+	Pkg         string
+	GoPackage   bool
+	Msgs        []*srcMsg
+	Enums       []*srcEnum
+	Svcs        []*srcSvc
 }
 
-func tokenize(src string) []string {
+func tokenize(src string) ([]string, []int) {
 	var toks []string
+	var lines []int
 	i := 0
 	n := len(src)
+	lineOf := func(pos int) int { return 1 + strings.Count(src[:pos], "\n") }
 	for i < n {
+		for len(lines) < len(toks) {
+			lines = append(lines, lineOf(i-1))
+		}
 		c := src[i]
 		switch {
 		case c == '/' && i+1 < n && src[i+1] == '/':
@@ -105,6 +122,9 @@ func tokenize(src string) []string {
 				}
 				j++
 			}
+			if j >= n {
+				j = n - 1 // unterminated literal: the parser will stumble over the rest
+			}
 			toks = append(toks, src[i:j+1])
 			i = j + 1
 		case unicode.IsSpace(rune(c)):
@@ -121,13 +141,44 @@ func tokenize(src string) []string {
 			i++
 		}
 	}
-	return toks
+	for len(lines) < len(toks) {
+		lines = append(lines, lineOf(n))
+	}
+	return toks, lines
 }
 
 type parser struct {
-	toks []string
-	pos  int
-	file string
+	toks  []string
+	lines []int
+	pos   int
+	file  string
+}
+
+// line of the token consumed last (or of the first token)
+func (p *parser) line() int {
+	i := p.pos - 1
+	if i < 0 {
+		i = 0
+	}
+	if i >= len(p.lines) {
+		i = len(p.lines) - 1
+	}
+	if i < 0 {
+		return 0
+	}
+	return p.lines[i]
+}
+
+// line of the token about to be consumed
+func (p *parser) lineNext() int {
+	if p.pos < len(p.lines) {
+		return p.lines[p.pos]
+	}
+	return p.line()
+}
+
+func (p *parser) fail(format string, args ...interface{}) {
+	panic(srcErr{p.line(), fmt.Sprintf(format, args...)})
 }
 
 func (p *parser) peek() string {
@@ -143,7 +194,7 @@ func (p *parser) next() string {
 }
 func (p *parser) expect(t string) {
 	if g := p.next(); g != t {
-		panic(fmt.Sprintf("%s: expected %q, got %q (token %d)", p.file, t, g, p.pos))
+		p.fail("expected %q, got %q", t, g)
 	}
 }
 
@@ -154,7 +205,7 @@ func (p *parser) skipBalanced(open, close string) {
 	for depth > 0 {
 		t := p.next()
 		if t == "" {
-			panic(p.file + ": unbalanced " + open)
+			p.fail("unbalanced %s", open)
 		}
 		if t == open {
 			depth++
@@ -179,8 +230,8 @@ func (p *parser) optionStmt() srcOpt {
 }
 
 // optAssign parses `NAME = VALUE`.
-func (p *parser) optAssign() srcOpt {
-	o := srcOpt{}
+func (p *parser) optAssign() (o srcOpt) {
+	o.Line = p.lineNext()
 	if p.peek() == "(" {
 		p.next()
 		o.Name = "(" + p.next() + ")"
@@ -241,7 +292,7 @@ func (p *parser) message(prefix string) *srcMsg {
 	for p.peek() != "}" {
 		switch t := p.peek(); t {
 		case "":
-			panic(p.file + ": unterminated message " + m.Full)
+			p.fail("unterminated message %s", m.Full)
 		case ";":
 			p.next()
 		case "option":
@@ -258,14 +309,16 @@ func (p *parser) message(prefix string) *srcMsg {
 			for p.next() != ";" {
 			}
 		case "oneof", "extend", "group":
-			panic(p.file + ": unsupported construct " + t + " in " + m.Full)
+			p.next()
+			p.fail("construct %q in message %s is outside the supported proto3 subset", t, m.Full)
 		default:
-			f := srcField{}
+			f := srcField{Line: p.lineNext()}
 			if t == "repeated" {
 				f.Rep = true
 				p.next()
 			} else if t == "optional" || t == "required" {
-				panic(p.file + ": unsupported label " + t + " in " + m.Full)
+				p.next()
+				p.fail("field label %q in message %s is outside the supported proto3 subset", t, m.Full)
 			}
 			if p.peek() == "map" {
 				p.next()
@@ -282,11 +335,19 @@ func (p *parser) message(prefix string) *srcMsg {
 			p.expect("=")
 			num, err := strconv.Atoi(p.next())
 			if err != nil {
-				panic(fmt.Sprintf("%s: field number of %s.%s: %v", p.file, m.Full, f.Name, err))
+				p.fail("field number of %s.%s: %v", m.Full, f.Name, err)
 			}
 			f.Num = num
 			if p.peek() == "[" {
-				f.Opts = p.bracketOpts()
+				for _, o := range p.bracketOpts() {
+					// json_name is a pseudo-option of the field syntax: it sets the field's json
+					// name in the descriptor, it is neither an extension nor a FieldOptions member
+					if o.Name == "json_name" && !o.Agg && isStr(o.Val) {
+						f.Json = unescape(unquote(o.Val))
+						continue
+					}
+					f.Opts = append(f.Opts, o)
+				}
 			}
 			p.expect(";")
 			m.Fields = append(m.Fields, f)
@@ -303,7 +364,7 @@ func (p *parser) enum(prefix string) *srcEnum {
 	for p.peek() != "}" {
 		switch p.peek() {
 		case "":
-			panic(p.file + ": unterminated enum")
+			p.fail("unterminated enum %s", e.Full)
 		case ";":
 			p.next()
 		case "option":
@@ -316,7 +377,7 @@ func (p *parser) enum(prefix string) *srcEnum {
 			p.expect("=")
 			num, err := strconv.Atoi(p.next())
 			if err != nil {
-				panic(fmt.Sprintf("%s: enum value %s: %v", p.file, name, err))
+				p.fail("number of enum value %s: %v", name, err)
 			}
 			var os []srcOpt
 			if p.peek() == "[" {
@@ -337,7 +398,7 @@ func (p *parser) service(prefix string) *srcSvc {
 	for p.peek() != "}" {
 		switch p.peek() {
 		case "":
-			panic(p.file + ": unterminated service")
+			p.fail("unterminated service %s", s.Full)
 		case ";":
 			p.next()
 		case "option":
@@ -373,7 +434,8 @@ func (p *parser) service(prefix string) *srcSvc {
 					case "option":
 						md.Opts = append(md.Opts, p.optionStmt())
 					default:
-						panic(p.file + ": unexpected token in rpc body: " + p.peek())
+						p.next()
+						p.fail("unexpected token %q in the body of rpc %s", p.toks[p.pos-1], md.Name)
 					}
 				}
 				p.expect("}")
@@ -385,16 +447,29 @@ func (p *parser) service(prefix string) *srcSvc {
 			}
 			s.Methods = append(s.Methods, md)
 		default:
-			panic(p.file + ": unexpected token in service: " + p.peek())
+			p.next()
+			p.fail("unexpected token %q in service %s", p.toks[p.pos-1], s.Full)
 		}
 	}
 	p.expect("}")
 	return s
 }
 
-func parseProto(name, text string) *srcFile {
-	p := &parser{toks: tokenize(text), file: name}
-	f := &srcFile{Name: name}
+func parseProto(name, text string) (f *srcFile) {
+	f = &srcFile{Name: name}
+	p := &parser{file: name}
+	// whatever the extractor does not understand ends the parse of THIS file at that point and is
+	// recorded (with what was parsed before it); it never stops the translator
+	defer func() {
+		if r := recover(); r != nil {
+			if e, ok := r.(srcErr); ok {
+				f.Unsupported = append(f.Unsupported, e)
+			} else {
+				f.Unsupported = append(f.Unsupported, srcErr{p.line(), fmt.Sprintf("extractor failure: %v", r)})
+			}
+		}
+	}()
+	p.toks, p.lines = tokenize(text)
 	prefix := func() string {
 		if f.Pkg == "" {
 			return ""
@@ -409,7 +484,7 @@ func parseProto(name, text string) *srcFile {
 			p.next()
 			p.expect("=")
 			if s := unquote(p.next()); s != "proto3" {
-				panic(name + ": syntax " + s + " is outside the supported subset")
+				p.fail("syntax %q is outside the supported subset (proto3)", s)
 			}
 			p.expect(";")
 		case "package":
@@ -435,7 +510,8 @@ func parseProto(name, text string) *srcFile {
 		case "service":
 			f.Svcs = append(f.Svcs, p.service(prefix()))
 		default:
-			panic(name + ": unexpected top-level token " + p.peek())
+			p.next()
+			p.fail("unexpected top-level token %q", p.toks[p.pos-1])
 		}
 	}
 	return f
@@ -609,7 +685,7 @@ var optTab map[string]map[string]extInfo
 // optRows renders the options of one declaration as ROpt rows, sorted by option number (stable),
 // in the wire form the descriptors carry them: bool -> varint 0/1, string -> bytes, integer ->
 // varint; message-valued options by presence only.
-func optRows(owner, extendee string, opts []srcOpt) []string {
+func optRows(fn, owner, extendee string, opts []srcOpt) []string {
 	if optTab == nil {
 		optTab = optTable()
 	}
@@ -618,16 +694,23 @@ func optRows(owner, extendee string, opts []srcOpt) []string {
 		txt string
 	}
 	var rows []row
-	for _, o := range opts {
+	var bad []string
+	// one option -> (number, wire type, hex payload); a panic here is an unknown construct
+	encode := func(o srcOpt) (r row, err error) {
+		defer func() {
+			if x := recover(); x != nil {
+				err = fmt.Errorf("%v", x)
+			}
+		}()
 		e, ok := optTab[extendee][o.Name]
 		if !ok {
-			panic(fmt.Sprintf("source extractor: option %s of %s is not declared by any linked .proto file (owner %s)", o.Name, extendee, owner))
+			return r, fmt.Errorf("option %s (%s) is not declared for %s by any linked .proto file", o.Name, owner, strings.TrimPrefix(extendee, ".google.protobuf."))
 		}
 		wt, hx := 2, ""
 		switch {
 		case o.Agg || e.Type == 11:
 			if e.Type != 11 {
-				panic(fmt.Sprintf("source extractor: aggregate value for scalar option %s (%s)", o.Name, owner))
+				return r, fmt.Errorf("aggregate value for scalar option %s (%s)", o.Name, owner)
 			}
 		case e.Type == 8:
 			wt = 0
@@ -637,31 +720,54 @@ func optRows(owner, extendee string, opts []srcOpt) []string {
 			case "false":
 				hx = "00"
 			default:
-				panic(fmt.Sprintf("source extractor: option %s (%s): %q is not a bool", o.Name, owner, o.Val))
+				return r, fmt.Errorf("option %s (%s): %s is not a bool", o.Name, owner, o.Val)
 			}
 		case e.Type == 9 || e.Type == 12:
-			if len(o.Val) < 2 || (o.Val[0] != '"' && o.Val[0] != '\'') {
-				panic(fmt.Sprintf("source extractor: option %s (%s): %q is not a string literal", o.Name, owner, o.Val))
+			if !isStr(o.Val) {
+				return r, fmt.Errorf("option %s (%s): %s is not a string literal", o.Name, owner, o.Val)
 			}
 			hx = hex.EncodeToString([]byte(unescape(unquote(o.Val))))
 		case e.Type == 3 || e.Type == 4 || e.Type == 5 || e.Type == 13:
-			n, err := strconv.ParseInt(o.Val, 0, 64)
-			if err != nil {
-				panic(fmt.Sprintf("source extractor: option %s (%s): %q is not an integer", o.Name, owner, o.Val))
+			n, perr := strconv.ParseInt(o.Val, 0, 64)
+			if perr != nil {
+				return r, fmt.Errorf("option %s (%s): %s is not an integer", o.Name, owner, o.Val)
 			}
 			wt = 0
 			hx = hex.EncodeToString(appendVarint(nil, uint64(n)))
 		default:
-			panic(fmt.Sprintf("source extractor: option %s (%s) has a type outside the supported subset (%d)", o.Name, owner, e.Type))
+			return r, fmt.Errorf("option %s (%s) has a type outside the supported subset (%d)", o.Name, owner, e.Type)
 		}
-		rows = append(rows, row{e.Num, fmt.Sprintf("ROpt %s %d %d %s", coqStr(owner), e.Num, wt, coqStr(hx))})
+		return row{e.Num, fmt.Sprintf("ROpt %s %d %d %s", coqStr(owner), e.Num, wt, coqStr(hx))}, nil
+	}
+	for _, o := range opts {
+		r, err := encode(o)
+		if err != nil {
+			bad = append(bad, unsupportedRow(fn, o.Line, err.Error()))
+			continue
+		}
+		rows = append(rows, r)
 	}
 	sort.SliceStable(rows, func(i, j int) bool { return rows[i].num < rows[j].num })
 	var out []string
 	for _, r := range rows {
 		out = append(out, r.txt)
 	}
-	return out
+	return append(out, bad...)
+}
+
+// unsupportedRow renders a construct the extractor does not understand; no descriptor row equals
+// it, so the static case of the file fails and names file, line and construct.
+func unsupportedRow(fn string, line int, what string) string {
+	b := []byte(what)
+	for i, c := range b {
+		if c < 32 || c > 126 {
+			b[i] = '?'
+		}
+	}
+	if len(b) > 200 {
+		b = b[:200]
+	}
+	return fmt.Sprintf("RUnsupported %s %d %s", coqStr(fn), line, coqStr(string(b)))
 }
 
 // sourceRows renders the srow table.
@@ -687,6 +793,7 @@ func sourceRows(files []*srcFile) []string {
 	}
 	// protobuf name resolution: innermost scope outwards; a name that is not declared under
 	// proto/irismod must be a fully qualified external one (cosmos.*, google.protobuf.*)
+	var unresolved []string // type names that resolve to nothing declared (reported per use)
 	resolve := func(scope, t string) string {
 		if scalarKinds[t] {
 			return t
@@ -720,7 +827,7 @@ func sourceRows(files []*srcFile) []string {
 			}
 		}
 		if !strings.Contains(t, ".") {
-			panic("source extractor: unresolved type " + t + " in scope " + scope)
+			unresolved = append(unresolved, t)
 		}
 		return "." + t
 	}
@@ -732,7 +839,7 @@ func sourceRows(files []*srcFile) []string {
 		for _, s := range m.Signers {
 			rows = append(rows, fmt.Sprintf("RSigner %s %s", q(m.Full), q(s)))
 		}
-		rows = append(rows, optRows("msg "+m.Full, ".google.protobuf.MessageOptions", m.Opts)...)
+		rows = append(rows, optRows(fn, "msg "+m.Full, ".google.protobuf.MessageOptions", m.Opts)...)
 		var entries []*srcMsg
 		for _, f := range m.Fields {
 			ty := f.Type
@@ -747,8 +854,12 @@ func sourceRows(files []*srcFile) []string {
 			} else {
 				ty = resolve(m.Full, ty)
 			}
-			rows = append(rows, fmt.Sprintf("RField %s %s %d %s %s", q(m.Full), q(f.Name), f.Num, q(ty), coqBool(rep)))
-			rows = append(rows, optRows("field "+m.Full+"."+f.Name, ".google.protobuf.FieldOptions", f.Opts)...)
+			for _, u := range unresolved {
+				rows = append(rows, unsupportedRow(fn, f.Line, "type "+u+" of field "+m.Full+"."+f.Name+" is not declared under proto/irismod and is not fully qualified"))
+			}
+			unresolved = nil
+			rows = append(rows, fmt.Sprintf("RField %s %s %d %s %s %s", q(m.Full), q(f.Name), f.Num, q(ty), coqBool(rep), q(f.Json)))
+			rows = append(rows, optRows(fn, "field "+m.Full+"."+f.Name, ".google.protobuf.FieldOptions", f.Opts)...)
 		}
 		// descriptor order of nested types: declared nested messages and map entries in order of
 		// appearance; the repository declares no nested messages, so entries follow directly
@@ -759,45 +870,62 @@ func sourceRows(files []*srcFile) []string {
 			// entry fields resolve in the scope of the parent message
 			rows = append(rows, fmt.Sprintf("RMsg %s %s", q(fn), q(en.Full)))
 			// protoc marks the synthesised entry message with the built-in option map_entry = true
-			rows = append(rows, optRows("msg "+en.Full, ".google.protobuf.MessageOptions", []srcOpt{{Name: "map_entry", Val: "true"}})...)
+			rows = append(rows, optRows(fn, "msg "+en.Full, ".google.protobuf.MessageOptions", []srcOpt{{Name: "map_entry", Val: "true"}})...)
 			for _, f := range en.Fields {
-				rows = append(rows, fmt.Sprintf("RField %s %s %d %s false", q(en.Full), q(f.Name), f.Num, q(resolve(m.Full, f.Type))))
+				rows = append(rows, fmt.Sprintf("RField %s %s %d %s false %s", q(en.Full), q(f.Name), f.Num, q(resolve(m.Full, f.Type)), q("")))
+				unresolved = nil
 			}
 		}
 	}
 	for _, f := range files {
-		rows = append(rows, fmt.Sprintf("RFile %s %s", q(f.Name), q(f.Pkg)))
-		for _, m := range f.Msgs {
-			emitMsg(f.Name, m)
-		}
-		var enums []*srcEnum
-		var coll func(m *srcMsg)
-		coll = func(m *srcMsg) {
-			enums = append(enums, m.Enums...)
-			for _, n := range m.Nested {
-				coll(n)
+		f := f
+		func() {
+			// a name the table cannot carry (non-ASCII identifier, ...) is an unknown construct too
+			defer func() {
+				if r := recover(); r != nil {
+					rows = append(rows, unsupportedRow(f.Name, 0, fmt.Sprint(r)))
+				}
+			}()
+			rows = append(rows, fmt.Sprintf("RFile %s %s", q(f.Name), q(f.Pkg)))
+			for _, u := range f.Unsupported {
+				rows = append(rows, unsupportedRow(f.Name, u.Line, u.Msg))
 			}
-		}
-		for _, m := range f.Msgs {
-			coll(m)
-		}
-		enums = append(enums, f.Enums...)
-		for _, e := range enums {
-			rows = append(rows, fmt.Sprintf("REnum %s %s", q(f.Name), q(e.Full)))
-			rows = append(rows, optRows("enum "+e.Full, ".google.protobuf.EnumOptions", e.Opts)...)
-			for _, v := range e.Values {
-				rows = append(rows, fmt.Sprintf("REnumVal %s %s %s", q(e.Full), q(v.Name), coqZ(int64(v.Num))))
-				rows = append(rows, optRows("enumval "+e.Full+"."+v.Name, ".google.protobuf.EnumValueOptions", v.Opts)...)
+			for _, m := range f.Msgs {
+				emitMsg(f.Name, m)
 			}
-		}
-		for _, s := range f.Svcs {
-			rows = append(rows, fmt.Sprintf("RSvc %s %s %s", q(f.Name), q(s.Full), coqBool(s.MsgSvc)))
-			rows = append(rows, optRows("svc "+s.Full, ".google.protobuf.ServiceOptions", s.Opts)...)
-			for _, md := range s.Methods {
-				rows = append(rows, fmt.Sprintf("RMethod %s %s %s %s %s %s", q(s.Full), q(md.Name), q(resolve(s.Full, md.In)), q(resolve(s.Full, md.Out)), coqBool(md.CS), coqBool(md.SS)))
-				rows = append(rows, optRows("method "+s.Full+"."+md.Name, ".google.protobuf.MethodOptions", md.Opts)...)
+			var enums []*srcEnum
+			var coll func(m *srcMsg)
+			coll = func(m *srcMsg) {
+				enums = append(enums, m.Enums...)
+				for _, n := range m.Nested {
+					coll(n)
+				}
 			}
-		}
+			for _, m := range f.Msgs {
+				coll(m)
+			}
+			enums = append(enums, f.Enums...)
+			for _, e := range enums {
+				rows = append(rows, fmt.Sprintf("REnum %s %s", q(f.Name), q(e.Full)))
+				rows = append(rows, optRows(f.Name, "enum "+e.Full, ".google.protobuf.EnumOptions", e.Opts)...)
+				for _, v := range e.Values {
+					rows = append(rows, fmt.Sprintf("REnumVal %s %s %s", q(e.Full), q(v.Name), coqZ(int64(v.Num))))
+					rows = append(rows, optRows(f.Name, "enumval "+e.Full+"."+v.Name, ".google.protobuf.EnumValueOptions", v.Opts)...)
+				}
+			}
+			for _, s := range f.Svcs {
+				rows = append(rows, fmt.Sprintf("RSvc %s %s %s", q(f.Name), q(s.Full), coqBool(s.MsgSvc)))
+				rows = append(rows, optRows(f.Name, "svc "+s.Full, ".google.protobuf.ServiceOptions", s.Opts)...)
+				for _, md := range s.Methods {
+					rows = append(rows, fmt.Sprintf("RMethod %s %s %s %s %s %s", q(s.Full), q(md.Name), q(resolve(s.Full, md.In)), q(resolve(s.Full, md.Out)), coqBool(md.CS), coqBool(md.SS)))
+					for _, u := range unresolved {
+						rows = append(rows, unsupportedRow(f.Name, 0, "type "+u+" of rpc "+s.Full+"."+md.Name+" is not declared under proto/irismod and is not fully qualified"))
+					}
+					unresolved = nil
+					rows = append(rows, optRows(f.Name, "method "+s.Full+"."+md.Name, ".google.protobuf.MethodOptions", md.Opts)...)
+				}
+			}
+		}()
 	}
 	return rows
 }
